@@ -725,8 +725,8 @@ class Facts:
 
     def bodies(self, prefix=None, pred=None):
         for name in self.order:
-            if prefix is not None and not name.startswith(prefix):
-                continue
+            if prefix is not None and not (name.startswith(prefix) or name.startswith("<" + prefix)):
+                continue          # ("<prefix..": trait impls such as `<transports::sctp::X as Drop>::drop`)
             if pred is not None and not pred(name):
                 continue
             yield self.body(name)
